@@ -170,15 +170,19 @@ class Ctl:
         self.free = True
         self.cv.notify_all()
 
+    def _record(self, task, att, kind):
+        if kind in ("obj", "sync"):          # other kinds are extra preemption points, invisible to the model
+            self.trace.append((task, att, kind))
+
     def gate(self, task, kind, att):
         with self.cv:
             if self.free or task is None:
-                self.trace.append((task, att, kind))
+                self._record(task, att, kind)
                 return
             if task in self.blocked:
                 self.anomalies.append("two threads are inside Job.evaluate for design %r at the same time" % (task,))
                 self._go_free()
-                self.trace.append((task, att, kind))
+                self._record(task, att, kind)
                 return
             self.blocked[task] = (kind, att)
             if self.running == task:
@@ -190,7 +194,7 @@ class Ctl:
             if self.granted == task:
                 self.granted = None
                 self.running = task
-            self.trace.append((task, att, kind))
+            self._record(task, att, kind)
             self.cv.notify_all()
 
     def job_end(self, task):
@@ -297,6 +301,8 @@ class Lab:
         from artap.algorithm import DummyAlgorithm
         from artap.datastore import SqliteDataStore
         from artap.utils import VectorAndNumbers
+        import artap.datastore as datastore_module
+        self.datastore_module = datastore_module
         self.ctx, self.logging = ctx, logging
         self.Individual, self.DummyAlgorithm, self.SqliteDataStore = Individual, DummyAlgorithm, SqliteDataStore
         self.ProblemViewDataStore, self.VectorAndNumbers = ProblemViewDataStore, VectorAndNumbers
@@ -319,6 +325,13 @@ class Lab:
 
             def evaluate_inequality_constraints(self, x):
                 return self.session.constraints(x, super().evaluate_inequality_constraints(x))
+
+            def __setattr__(self, key, value):
+                # shared state written by a worker in the middle of Job.evaluate: let the scheduler switch threads here
+                Problem.__setattr__(self, key, value)
+                s = self.__dict__.get("session")
+                if s is not None and key != "session":
+                    s.preempt()
         self.ParProblem = ParProblem
         self.cache = {}
         self.nfile = 0
@@ -339,6 +352,18 @@ class Lab:
             self.cache[key] = p
         return self.cache[key]
 
+    def tidy(self, problem):
+        """artap registers an atexit handler per Problem that removes its temporary directory: do it now"""
+        import atexit
+        try:
+            atexit.unregister(problem.cleanup)
+            wd = problem.working_dir
+            if os.path.isdir(wd) and wd.startswith("/tmp/artap-"):
+                import shutil
+                shutil.rmtree(wd, ignore_errors=True)
+        except Exception:
+            pass
+
     def db_path(self):
         self.nfile += 1
         return os.path.join(self.ctx.work, "s_%06d.sqlite" % self.nfile)
@@ -355,6 +380,21 @@ class JobProxy:
             return self._real.evaluate(individual)
         finally:
             self._session.job_end(individual)
+
+    def __getattr__(self, name):
+        return getattr(self._real, name)
+
+
+class Sqlite3Proxy:
+    """artap.datastore.sqlite3 during a run: opening a connection is an extra preemption point, so that controlled
+    schedules also put two threads inside sync_individual at the same time (no lock is held at that moment)"""
+
+    def __init__(self, real, session):
+        self._real, self._session = real, session
+
+    def connect(self, *args, **kwargs):
+        self._session.preempt()
+        return self._real.connect(*args, **kwargs)
 
     def __getattr__(self, name):
         return getattr(self._real, name)
@@ -405,6 +445,7 @@ class Session:
         self.anomalies = []
         self.exc = None
         self.path = None
+        self.in_evaluate = False
 
     # ---- scripted collaborators
     def objective(self, individual):
@@ -445,7 +486,14 @@ class Session:
         return classmethod(gen_vector)
 
     def job_end(self, individual):
+        self.thread_task.pop(threading.get_ident(), None)
         self.ctl.job_end(self.task_of.get(id(individual)))
+
+    def preempt(self):
+        ctl = getattr(self, "ctl", None)
+        key = self.thread_task.get(threading.get_ident())
+        if ctl is not None and key is not None and not ctl.done and self.in_evaluate:
+            ctl.gate(key[0], "hidden", key[1])
 
     def snap(self, ind):
         try:
@@ -488,6 +536,8 @@ class Session:
         V = lab.VectorAndNumbers
         saved = V.__dict__["gen_vector"]
         V.gen_vector = self.gen_vector_wrapper()
+        saved_sqlite = lab.datastore_module.sqlite3
+        lab.datastore_module.sqlite3 = Sqlite3Proxy(saved_sqlite, self)
         sched = threading.Thread(target=self.ctl.loop, daemon=True)
         out = io.StringIO()
         old_switch = sys.getswitchinterval()
@@ -499,15 +549,18 @@ class Session:
                 sched.start()
             with contextlib.redirect_stdout(out), contextlib.redirect_stderr(out):
                 try:
+                    self.in_evaluate = True
                     alg.evaluate(batch)
                 except BaseException as e:       # noqa: what the caller of Algorithm.evaluate sees
                     self.exc = e
         finally:
+            self.in_evaluate = False
             sys.setswitchinterval(old_switch)
             self.ctl.all_done()
             if sched.is_alive():
                 sched.join(10)
             V.gen_vector = saved
+            lab.datastore_module.sqlite3 = saved_sqlite
         self.wall = time.time() - t0
         self.after = [self.snap(o) for o in self.objs]
         self.failed = [self.snap(f) for f in p.failed]
@@ -523,8 +576,13 @@ class Session:
         rows = [None] * n
         extra = 0
         if self.cfg["store"] == "sqlite":
-            with contextlib.redirect_stderr(io.StringIO()), contextlib.redirect_stdout(io.StringIO()):
-                view = self.lab.ProblemViewDataStore(database_name=self.path)
+            try:
+                with contextlib.redirect_stderr(io.StringIO()), contextlib.redirect_stdout(io.StringIO()):
+                    view = self.lab.ProblemViewDataStore(database_name=self.path)
+            except Exception as e:
+                self.anomalies.append("the store cannot be read back after the evaluation: %r" % (e,))
+                return rows, 0, 0
+            self.lab.tidy(view)
             by_id = {o.id: i for i, o in enumerate(self.objs)}
             total = len(view.individuals)
             for r in view.individuals:
@@ -736,6 +794,9 @@ def all_merges(counts):
 
 # ----------------------------------------------------------------------------- main
 def one(ctx, lab, cfg, k, policy, label, acc, switch=None):
+    if len(ctx.oracle_failures) >= 40 and acc["hist"]["schedules"] >= 12:
+        acc["hist"]["skipped_after_40_failures"] = acc["hist"].get("skipped_after_40_failures", 0) + 1
+        return None, None                    # the property is already refuted 40 times over: stop exploring
     par = Session(lab, cfg, k, policy, switch).run()
     ser = Session(lab, cfg, 1, None).run()
     case, exp = encode(cfg, par, ser)
@@ -810,7 +871,7 @@ def run(ctx):
     # ---- thorough: every merge at gate granularity for batches <= 4 (workers = batch size)
     if ctx.thorough:
         for n in (2, 3, 4):
-            cfg = rand_cfg(rng, n, fail_rate=0.0, store="sqlite" if n < 4 else "memory", pre_rate=0.0)
+            cfg = rand_cfg(rng, n, fail_rate=0.0, store="sqlite", pre_rate=0.0)
             cfg["batch"] = list(range(n))
             for seq in all_merges(gate_counts(cfg)):
                 one(ctx, lab, cfg, n, pol_target(seq), "exhaustive:%d" % n, acc)
